@@ -46,6 +46,11 @@ let same_or_both_err want_asis got =
   if split_ws want_asis = got || (is_err (split_ws want_asis) && is_err got) then "asis=same" else "asis=diff"
 let iapprox_s = function IExact v -> hx v ^ " Exact" | IInexact (v, r) -> hx v ^ " " ^ flag_s (Some r)
 
+(* a base-2 float s * 2^e with |e| beyond every format: the value (an overflow, or less than a quarter of the smallest
+   subnormal) converts like s * 2^(+-6000), which the specification and the models can evaluate *)
+let clamp_exp s e =
+  if Zar.gt (Zar.abs e) (zi 6000) && Zar.lt (blen (Zar.abs s)) (zi 3000) then Zar.mul (zi (Zar.sign e)) (zi 6000) else e
+
 let judge op a got =
   let arg i = List.nth a i in
   match op with
@@ -206,7 +211,8 @@ let judge op a got =
             (if arg 0 = "f32" then z "7f800000" else z "7ff0000000000000") in
         expect (join ["ok"; hx bits; "NoOp"]) got
       else begin
-        let (s, e) = normalize b (z sa) (z ea) in
+        let (s, e) = if Zar.equal b (zi 2) then (z sa, clamp_exp (z sa) (z ea)) else (z sa, z ea) in
+        let (s, e) = normalize b s e in
         let (n, d) = frac b s e in
         let (bits, c) = ieee_round f m n d in
         let wflag = flag_s (flag_of_error (Zar.of_int (Zar.sign n)) c) in
@@ -220,22 +226,24 @@ let judge op a got =
         let fid =
           if Zar.equal b (zi 2) && Zar.sign s <> 0 then begin
             let (s0, e0) = normalize b s e in
-            let ts = fr_s (two_step p m s0 e0) in
+            (* base 2 (repaired in the fourth round): the as-is model is ConvModel.fbig2_to_float - 24/53 bits from the
+               smallest normal number on, one rounding at the smallest subnormal below it *)
             let long = Zar.gt (blen (Zar.abs s0)) (Zar.add p.mB one) in
             let sub = Zar.leq (Zar.add (blen (Zar.abs s0)) e0) (Zar.add f.emin (Zar.sub f.prec one)) in
-            (if ts = asis then fid else "asis=diff") ^ " path=" ^ (if long then "round" else "fits") ^ (if sub then "-subnormal" else "-normal")
+            fid ^ " path=" ^ (if long then "round" else "fits") ^ (if sub then "-subnormal" else "-normal")
           end else fid in
         if split_ws want = got then pass ~extra:(fid ^ " cls=" ^ wflag) ()
         else if split_ws asis = got then begin
-          (* open classes: the result lies in the subnormal range, or a base that is not a power
-             of two with a negative exponent (division route of convert_base) *)
+          (* open class: the result lies in the subnormal range (the division route of convert_base
+             for a base that is not a power of two was repaired in the fourth round) *)
           let minnorm_e = Zar.to_int (Zar.add f.emin (Zar.sub f.prec one)) in
           let an = Zar.abs n in
           let below_normal = if minnorm_e >= 0 then Zar.lt an (Zar.mul d (Zar.pow (zi 2) minnorm_e))
             else Zar.lt (Zar.mul an (Zar.pow (zi 2) (- minnorm_e))) d in
           let pow2 = Zar.equal b (Zar.shift_left one (Zar.log2 b)) in
-          if below_normal then known "fbig_to_float_subnormal" want
-          else if (not pow2) && Zar.sign e < 0 then known "fbig_to_float_division_route" want
+          ignore pow2;
+          (* base 2 rounds once since the fourth round; the other bases still round to 24/53 bits in convert_base first *)
+          if below_normal && not (Zar.equal b (zi 2)) then known "fbig_to_float_subnormal" want
           else fail want
         end else fail want
       end
@@ -244,9 +252,10 @@ let judge op a got =
       let (sa, ea) = if op = "fl2f" then (arg 2, arg 3) else (arg 1, arg 2) in
       if sa = "inf" || sa = "-inf" then expect_conv "err LossOfPrecision" got
       else
-        let (n, d) = frac (zi 2) (z sa) (z ea) in
+        let ea' = clamp_exp (z sa) (z ea) in
+        let (n, d) = frac (zi 2) (z sa) ea' in
         let m = if op = "fl2f" && arg 0 = "f32" then mode_of (arg 1) else MHalfEven in
-        let asis = if Zar.sign (z sa) = 0 then "ok 0" else conv_s hx (fbig2_try_to_float p m (z sa) (z ea)) in
+        let asis = if Zar.sign (z sa) = 0 then "ok 0" else conv_s hx (fbig2_try_to_float p m (z sa) ea') in
         (match exact_to_float f n d with
          | Some b -> expect_conv ~extra:(same_asis asis got) ("ok " ^ hx b) got
          | None -> expect_conv ~extra:(same_asis asis got) "err LossOfPrecision" got)
@@ -311,6 +320,27 @@ let judge op a got =
         | Ok ia -> join ["ok"; iapprox_s ia; "|"; iapprox_s (repr_to_int_x b s e)]
         | _ -> "panic" in
       expect ~extra:(same_asis asis got ^ " cls=" ^ flag_s fl) (join ["ok"; hx r; flag_s fl; "|"; hx t; tflag]) got
+  | "cast_i2f" ->
+      (* Rust's integer -> float cast against Flocq's binary_normalize mode_NE (ConvCastModel); for a
+         non-negative value also the model cast_uint the conversions are proved with *)
+      let is32 = is_f32 (arg 0) in
+      let (_, p) = fmt_of_name (arg 0) in
+      let vals = List.map z (List.tl (List.tl a)) in
+      let ref_ v = if is32 then int_to_f32_ref v else int_to_f64_ref v in
+      let want = join ("ok" :: List.map (fun v -> hx (ref_ v)) vals) in
+      let fid = List.for_all (fun v -> Zar.sign v < 0 || Zar.equal (cast_uint p v) (ref_ v)) vals in
+      expect ~extra:((if fid then "asis=same" else "asis=diff") ^ " cls=cast") want got
+  | "cast_f2i" ->
+      (* Rust's float -> integer cast against Flocq's Btrunc, saturating, NaN -> 0 *)
+      let (sg, w) = prim (arg 0) in
+      let is32 = is_f32 (arg 1) in
+      let (_, p) = fmt_of_name (arg 1) in
+      let pats = List.map z (List.tl (List.tl a)) in
+      let ref_ b = if is32 then f32_to_int_ref sg w b else f64_to_int_ref sg w b in
+      let want = join ("ok" :: List.map (fun b -> hx (ref_ b)) pats) in
+      (* cast_back (the model used by to_f32_small / to_f64_small) on finite non-negative patterns of unsigned targets *)
+      let fid = sg || List.for_all (fun b -> Zar.geq b (inf_bits p) || Zar.equal (cast_back p w b) (ref_ b)) pats in
+      expect ~extra:((if fid then "asis=same" else "asis=diff") ^ " cls=cast") want got
   | _ -> skip "unknown-op"
 
 let () = serve judge
